@@ -17,7 +17,6 @@ import (
 	"strings"
 	"sync"
 	"testing"
-	"testing/synctest"
 	"time"
 
 	"github.com/go-spatial/geom"
@@ -102,6 +101,10 @@ func genWorkload(seed uint64, mix string) (workload, simrt.FaultPlan, simrt.MapP
 			cnt = 24 + r.Intn(60)
 		default:
 			cnt = 84 + r.Intn(117) // up to 200
+		}
+		if r.Chance(0.015) {
+			// rarely a long table: object pools, slabs and buffers only wrap around here
+			cnt = 300 + r.Intn(900)
 		}
 	}
 	// per-run bias: some targets never receive polygon output at all
@@ -521,6 +524,12 @@ func checkDelivery(w *workload, t *fakeTarget) *simh.Violation {
 		if !reflect.DeepEqual(e.cols, append([]interface{}(nil), d.feat.Columns()...)) {
 			return v("columns-mutated", "feature %d columns changed after delivery: %#v", e.fid, d.feat.Columns())
 		}
+		if !reflect.DeepEqual(d.g, d.feat.Geometry()) {
+			return v("geometry-mutated", "feature %d: geometry changed after delivery: %#v, was %#v", e.fid, d.feat.Geometry(), d.g)
+		}
+		if ft, isT := d.feat.(processing.FeatureForTileMatrix); isT && d.hasT && ft.TileMatrixID() != d.tmid {
+			return v("wrong-target", "feature %d: tile matrix id changed after delivery: %d, was %d", e.fid, ft.TileMatrixID(), d.tmid)
+		}
 		if !e.poly {
 			if !reflect.DeepEqual(e.g, d.g) {
 				return v("geometry-nonpolygon", "feature %d geometry %#v, want untouched %#v", e.fid, d.g, e.g)
@@ -621,42 +630,37 @@ func sortedTargetsLocked(h *harness) []*fakeTarget { return sortedTargets(h) }
 
 var tapeSink func(uint32)
 
+// onFatal reports a violation that makes it impossible to leave the bubble (a goroutine
+// that can never finish) and ends the process.
+var onFatal func(v *simh.Violation)
+
 func runSim(t *testing.T, w *workload, fp simrt.FaultPlan, mp simrt.MapPolicy, mapSeed, seed uint64, tape []uint32, replay, trace bool) (rr runResult) {
 	rr.probes = simh.Counter{}
 	h, src, targets := build(w)
 	simrt.SetMapOrder(mp, mapSeed)
 	var early *simh.Violation
 	checkedReturn := false
-	leak := ""
-	func() {
-		defer func() {
-			if r := recover(); r != nil {
-				leak = fmt.Sprint(r)
+	opt := simrt.Options{
+		Seed: seed, Faults: fp, Tape: tape, Replay: replay, MaxSteps: stepBudget(w), Trace: trace, TapeSink: tapeSink,
+		AfterStep: func(s *simrt.Sim) string {
+			if !checkedReturn && s.CallerDone() {
+				checkedReturn = true
+				if v := waitForAll(h); v != nil {
+					early = v
+					return v.Message
+				}
 			}
-		}()
-		synctest.Test(t, func(t *testing.T) {
-			opt := simrt.Options{
-				Seed: seed, Faults: fp, Tape: tape, Replay: replay, MaxSteps: stepBudget(w), Trace: trace,
-				WaitQuiescent: synctest.Wait,
-				TapeSink:      tapeSink,
-				SleepFake:     func(d time.Duration) { time.Sleep(d) },
-				AfterStep: func(s *simrt.Sim) string {
-					if !checkedReturn && s.CallerDone() {
-						checkedReturn = true
-						if v := waitForAll(h); v != nil {
-							early = v
-							return v.Message
-						}
-					}
-					return ""
-				},
-			}
-			s := simrt.New(opt)
-			rr.sim = s.Run(func() {
-				processing.ProcessFeatures(src, targets, h.tableSnap)
-			})
-		})
-	}()
+			return ""
+		},
+	}
+	var leak string
+	rr.sim, leak = simh.RunBubble(t, opt, func() {
+		processing.ProcessFeatures(src, targets, h.tableSnap)
+	}, func(stacks string) {
+		if onFatal != nil {
+			onFatal(&simh.Violation{Class: "lifecycle/goroutine-leak", Message: stacks})
+		}
+	})
 	rr.mapStats, rr.mapDigest = simrt.TakeMapStats()
 	simrt.SetMapOrder(simrt.MapNative, 0)
 	wj, _ := json.Marshal(w)
@@ -901,6 +905,11 @@ func explore(t *testing.T, job *simh.Job, out *simh.Out) {
 			so.Line(map[string]interface{}{"t": "replay", "replay": mkReplay(job, seed, w, fp, mp, mapSeed, runResult{})})
 			tapeSink = func(x uint32) { so.Line(map[string]interface{}{"t": "tape", "x": x}) }
 		}
+		onFatal = func(v *simh.Violation) {
+			rr := runResult{violation: v}
+			out.Line(map[string]interface{}{"t": "violation", "seed": seed, "replay": mkReplay(job, seed, w, fp, mp, mapSeed, rr)})
+			os.Exit(0)
+		}
 		wantSample := len(sum.Samples) < job.Samples && len(w.Features) >= 1 && len(w.Features) <= 4 && len(w.Targets) >= 2
 		rr := runSim(t, &w, fp, mp, mapSeed, seed, nil, false, selftest || wantSample)
 		sum.Runs++
@@ -974,6 +983,11 @@ func candidates(t *testing.T, job *simh.Job, out *simh.Out) {
 		class, msg := "", ""
 		var trace []string
 		var tape []uint32
+		ci := i
+		onFatal = func(v *simh.Violation) {
+			out.Line(map[string]interface{}{"t": "cand", "cand": ci, "class": v.Class, "message": v.Message})
+			os.Exit(0)
+		}
 		if rf.Engine == "pipesim-free" {
 			if v := runFree(&rf.Workload); v != nil {
 				class, msg = v.Class, v.Message
